@@ -36,9 +36,30 @@ def main() -> int:
         mods = ["ShampooProps." + f.stem for f in sorted((common.COQ / "props").glob("*.v"))]
         r = subprocess.run(["timeout", "3000", "coqchk", "-silent", "-o", "-Q", "theories", "Shampoo", "-Q", "props", "ShampooProps",
                             "-Q", "exec", "ShampooExec", *mods], cwd=common.COQ, capture_output=True, text=True)
-        (common.ROOT / "coqchk_report.txt").write_text(f"$ coqchk -silent -o ... {' '.join(mods)}\nexit={r.returncode}\n" + r.stdout + r.stderr)
+        report = f"$ coqchk -silent -o ... {' '.join(mods)}\nexit={r.returncode}\n" + r.stdout + r.stderr
         print((r.stdout + r.stderr)[-1500:])
-        return 0 if (ok and r.returncode == 0) else 1
+        # the translator tie: Gen*.v regenerated from the source under VERIF_REPO into a scratch dir, compiled there together with
+        # coq/gen/PyPrelude*.v and the committed Equiv*.v, then re-checked by coqchk like the property files
+        import shutil
+        from harness import gen_targets
+        wd = common.WORK / "coqchk-gen"
+        shutil.rmtree(wd, ignore_errors=True)
+        gmods, gen_ok = [], True
+        for pid, (name, equiv, _, _) in sorted(gen_targets.SPECS.items()):
+            g = common.gen_equiv_compile(wd, name, lambda pid=pid: gen_targets.generate(pid), equiv)
+            gen_ok = gen_ok and g["ok"]
+            if g["ok"]:
+                gmods.append("ShampooGen." + Path(equiv).stem)
+            else:
+                report += f"\ncoq/gen/{equiv}: NOT COMPILED: {g['broken'][:1]}\n"
+        r2 = subprocess.run(["timeout", "3000", "coqchk", "-silent", "-o", "-Q", "theories", "Shampoo", "-Q", "props", "ShampooProps",
+                             "-Q", "exec", "ShampooExec", "-Q", str(wd / "gen"), "ShampooGen", *gmods], cwd=common.COQ, capture_output=True, text=True)
+        report += (f"\n$ coqchk -silent -o ... -Q <scratch>/gen ShampooGen {' '.join(gmods)}   "
+                   f"(Gen*.v generated from {common.REPO} by tools/py2coq.py, Equiv*.v = coq/gen/)\nexit={r2.returncode}\n" + r2.stdout + r2.stderr)
+        print((r2.stdout + r2.stderr)[-1500:])
+        shutil.rmtree(wd, ignore_errors=True)
+        (common.ROOT / "coqchk_report.txt").write_text(report)
+        return 0 if (ok and r.returncode == 0 and gen_ok and r2.returncode == 0) else 1
     if cmd == "replay":
         import importlib
         obj = json.loads(open(sys.argv[2]).read())
